@@ -19,6 +19,7 @@ mod backend;
 mod client;
 mod h2;
 mod perip;
+mod timerlab;
 
 use std::{
     collections::BTreeMap,
@@ -258,6 +259,8 @@ impl Cell {
             tls_h1: tls::client_config(&["http/1.1"]),
             tls_bad_alpn: tls::client_config(&["spdy/9"]),
             tls_h2: tls::client_config(&["h2"]),
+            ctl: ctl.clone(),
+            probe: w.probe.clone(),
             reclaim_bound_ms: cfg.timeout_sum_ms() + 2500,
         });
         Ok(Cell { cfg, ip, w, env, ctl, backends, underflow_seen: BTreeMap::new() })
@@ -762,6 +765,22 @@ pub fn finish_cell(cc: &mut CaseCtx, cell: Cell, rep: &mut Report) {
     }
 }
 
+/// signatures listed with status "known" for this property in known_findings.json
+fn known_signatures(ctx: &Ctx) -> std::collections::BTreeSet<String> {
+    let mut out = std::collections::BTreeSet::new();
+    let text = std::fs::read_to_string(ctx.root.join("known_findings.json")).unwrap_or_default();
+    if let Ok(v) = serde_json::from_str::<Value>(&text) {
+        for f in v["findings"].as_array().cloned().unwrap_or_default() {
+            if f["property"].as_str() == Some(ctx.prop.as_str()) && f["status"].as_str() == Some("known") {
+                if let Some(s) = f["signature"].as_str() {
+                    out.insert(s.to_owned());
+                }
+            }
+        }
+    }
+    out
+}
+
 fn conservation_cfg(rng: &mut Rng) -> CellCfg {
     CellCfg {
         kind: "conservation",
@@ -904,8 +923,20 @@ fn conservation_cell(cc: &mut CaseCtx, rep: &mut Report) {
                 if attributed {
                     rep.obs("blended_mix_violations_attributed_to_a_class", 1);
                 } else {
+                    // not reproduced by any single class (an intermittent defect): when one of the
+                    // blended classes carries a *known* finding for the same field, the violation
+                    // is reported under that signature (still printed, as KNOWN-FINDING) instead
+                    // of the uninformative `/mixed`
+                    let known = known_signatures(cc.ctx);
                     for v in held_back {
-                        rep.violation(&v.signature, &v.what, v.witness);
+                        let mut sig = v.signature.clone();
+                        if let Some(prefix) = v.signature.strip_suffix("/mixed") {
+                            if let Some(hit) = parts.iter().map(|(c, t)| format!("{prefix}/{}", c.name(*t))).find(|s| known.contains(s)) {
+                                rep.obs("blended_mix_violations_attributed_by_known_finding", 1);
+                                sig = hit;
+                            }
+                        }
+                        rep.violation(&sig, &v.what, v.witness);
                     }
                 }
                 return;
@@ -931,8 +962,10 @@ fn kind_of(case: u64, ctx: &Ctx) -> &'static str {
         Some("conservation") => "conservation",
         Some("admission") => "admission",
         Some("perip") => "perip",
+        Some("timer") => "timer",
         _ => match case % 16 {
-            0..=8 => "conservation",
+            0..=7 => "conservation",
+            8 => "timer",
             9..=12 => "admission",
             _ => "perip",
         },
@@ -944,6 +977,7 @@ fn run_case_once(ctx: &Ctx, case: u64, only_units: Option<Vec<u64>>, rep: &mut R
     match kind_of(case, ctx) {
         "conservation" => conservation_cell(&mut cc, rep),
         "admission" => admission::cell(&mut cc, rep),
+        "timer" => timerlab::cell(&mut cc, rep),
         _ => perip::cell(&mut cc, rep),
     }
     cc.close_unit(0);
@@ -1052,6 +1086,13 @@ pub fn run(ctx: &Ctx) -> Report {
         "result:tcp_relayed",
         "result:tls_handshake_failed",
         "result:h2_streams_completed",
+        "result:backend_idle_closed_then_client_left",
+        "result:backend_idle_closed_then_reused",
+        "timer_schedules",
+        "timer_drains",
+        "timer_multi_revolution_pending_at_drain",
+        "timer_wakeup_checks",
+        "per_ip_mixed_cluster_disable_checks",
         "result:h2_rst_stream_then_completed",
         "result:h2_dropped_with_open_streams",
         "per_ip_h2_single_slot_checks",
